@@ -173,10 +173,11 @@ impl Gen {
     }
 
     fn leaf(&mut self, gens: &[String], ints: &[String]) -> String {
-        match self.rng.below(9) {
+        match self.rng.below(10) {
             0 | 1 => self.pick(LEAVES0).to_string(),
             2 | 3 | 4 => format!("{}({})", self.pick(&["p", "q"]), self.term(gens, ints)),
             5 => format!("q({}, {})", self.term(gens, ints), self.term(gens, ints)),
+            6 => format!("{} {} {} {} {}", self.term(gens, ints), self.pick(&["=", "<", "<=", "!="]), self.term(gens, ints), self.pick(&["=", "<", "<=", ">"]), self.term(gens, ints)),
             _ => format!("{} {} {}", self.term(gens, ints), self.pick(&["=", "=", "=", "!=", "<", "<=", ">", ">="]), self.term(gens, ints)),
         }
     }
@@ -196,9 +197,9 @@ impl Gen {
                 // guarded quantifier over one or two fresh-or-shadowing variables
                 let exists = self.rng.below(2) == 0;
                 let int_sorted = self.rng.below(4) == 0;
-                let name = if int_sorted { self.pick(&["N$i", "M$i", "I$i"]) } else { self.pick(&["X", "Y", "Z", "Z1"]) }.to_string();
+                let name = if int_sorted { self.pick(&["N$i", "M$i", "I$i"]) } else { self.pick(&["X", "Y", "Z", "Z1", "S$s"]) }.to_string();
                 let guard = match self.rng.below(4) {
-                    0 => { let t = self.term(gens, ints); if t.contains(name.trim_end_matches("$i")) { format!("p({name})") } else { format!("{name} = {t}") } }
+                    0 => { let t = self.term(gens, ints); if t.contains(name.trim_end_matches("$i").trim_end_matches("$s")) { format!("p({name})") } else { format!("{name} = {t}") } }
                     1 => format!("q({name}, {})", self.term(gens, ints)),
                     _ => format!("{}({name})", self.pick(&["p", "q"])),
                 };
